@@ -79,14 +79,21 @@ def replay_once(path, engines):
     if rc == 4:
         return "error", (out + err).strip()[-400:]
     if rc == 78:
-        return "crash", "case exceeded the per-case time limit (hang)"
+        return "hang", "case exceeded the per-case time limit (hang)"
     tail = [l for l in err.splitlines() if "ERROR" in l or "runtime error" in l or "SUMMARY" in l or "Assertion" in l or "terminate" in l]
     return "crash", "process died rc=%s %s" % (rc, " | ".join(tail[:3]) or err.strip()[-300:])
 
 
-def confirm(path, engines, times=3):
-    res = [replay_once(path, engines) for _ in range(times)]
-    bad = [r for r in res if r[0] in ("violation", "crash")]
+def confirm(path, engines, times=3, hang_is_bad=True):
+    """Re-executes a failing case.  A case that only exceeds the per-case time limit is a violation for the properties that claim termination
+    (hang_is_bad); for the others a time budget that runs out is inconclusive, never a violation."""
+    res = []
+    for _ in range(times):
+        r = replay_once(path, engines)
+        res.append(r)
+        if r[0] == "hang" and not hang_is_bad:
+            break  # no point in burning the time limit again
+    bad = [r for r in res if r[0] in ("violation", "crash") or (r[0] == "hang" and hang_is_bad)]
     return len(bad), (bad[0][1] if bad else res[0][1])
 
 
@@ -153,7 +160,7 @@ def run_check(pid, tier, seed, only_replay=None):
         print(("REPLAY-VIOLATION " if st in ("died", "hang") else "REPLAY-OK ") + st + " " + detail)
         return 1 if st in ("died", "hang") else 0
     if only_replay:
-        n, msg = confirm(only_replay, engines, times=1)
+        n, msg = confirm(only_replay, engines, times=1, hang_is_bad=bool(spec.get("claims_termination")))
         print(("REPLAY-VIOLATION " if n else "REPLAY-OK ") + msg)
         return 1 if n else 0
 
@@ -177,7 +184,7 @@ def run_check(pid, tier, seed, only_replay=None):
         kind, msg = replay_once(path, engines)
         replayed += 1
         if kind in ("violation", "crash"):
-            n, msg = confirm(path, engines)
+            n, msg = confirm(path, engines, hang_is_bad=bool(spec.get("claims_termination")))
             if n:
                 k = match_known(pid, msg, parse_case_header(path), known)
                 if k:
@@ -258,8 +265,14 @@ def run_check(pid, tier, seed, only_replay=None):
             add_header_line(fpath, "variant", j["variant"])
             if j.get("threads", 1) != 1:
                 add_header_line(fpath, "threads", str(j["threads"]))
-            n, msg = confirm(fpath, engines)
+            n, msg = confirm(fpath, engines, hang_is_bad=bool(spec.get("claims_termination")))
             hdr = parse_case_header(fpath)
+            if n == 0 and "per-case time limit" in (msg or ""):
+                keep = save_violation(pid, fpath)
+                notes.append("case exceeded the per-case time limit; this property does not claim termination, so the budget running out is "
+                             "inconclusive, not a violation (case kept at %s)" % keep)
+                merged["counters"]["cases_over_time_limit_inconclusive"] = merged["counters"].get("cases_over_time_limit_inconclusive", 0) + 1
+                continue
             if n == 0:
                 notes.append("failure did not reproduce in 3 replays (not reported): %s %s" % (fpath, hdr.get("msg", "")))
                 merged["counters"]["unreproduced_failures"] = merged["counters"].get("unreproduced_failures", 0) + 1
